@@ -230,7 +230,11 @@ func (r *Run) writeReplay(dir string, it *OblResult) (string, bool) {
 		base = base[:120]
 	}
 	path := filepath.Join(dir, base+".json")
-	q := it.Enc.Query(it.Obl)
+	sub := *it.Obl
+	if it.Res.FailedConjunct != "" {
+		sub.Cond = T{it.Res.FailedConjunct, SBool}
+	}
+	q := it.Enc.Query(&sub)
 	qpath := filepath.Join(dir, base+".smt2")
 	os.WriteFile(qpath, []byte("(set-logic ALL)\n"+q), 0o644)
 	rep := map[string]interface{}{
@@ -245,6 +249,7 @@ func (r *Run) writeReplay(dir string, it *OblResult) (string, bool) {
 		"model":      firstN(it.Res.Model, 20000),
 		"query":      qpath,
 		"conflict":   it.Res.Conflict,
+		"failed_conjunct": firstN(it.Res.FailedConjunct, 3000),
 	}
 	confirmed := false
 	if out, ok := r.replay(it, dir, base); ok {
